@@ -38,6 +38,35 @@ pub fn lru_capacity() -> Option<usize> {
     }
 }
 
+/// Stand-in for `lru::LruCache` in the move generator: identical behaviour,
+/// except that `new` uses the capacity knob when one is set (pre-sizing the
+/// shipped 10^8-entry table costs ~100 ms and 2 GB of address space per
+/// generator, which a simulator creating thousands of generators cannot pay,
+/// and a cache that never evicts hides the miss-after-eviction path).
+pub struct LruCache<K: std::hash::Hash + Eq, V>(lru::LruCache<K, V>);
+
+impl<K: std::hash::Hash + Eq, V> LruCache<K, V> {
+    pub fn new(capacity: std::num::NonZeroUsize) -> Self {
+        let capacity = lru_capacity()
+            .and_then(std::num::NonZeroUsize::new)
+            .unwrap_or(capacity);
+        Self(lru::LruCache::new(capacity))
+    }
+}
+
+impl<K: std::hash::Hash + Eq, V> std::ops::Deref for LruCache<K, V> {
+    type Target = lru::LruCache<K, V>;
+    fn deref(&self) -> &Self::Target {
+        &self.0
+    }
+}
+
+impl<K: std::hash::Hash + Eq, V> std::ops::DerefMut for LruCache<K, V> {
+    fn deref_mut(&mut self) -> &mut Self::Target {
+        &mut self.0
+    }
+}
+
 pub fn set_board_observer(observer: Option<BoardObserver>) {
     BOARD_OBSERVER.store(observer.map_or(0, |f| f as usize), Ordering::SeqCst);
 }
